@@ -25,6 +25,8 @@ pub enum Fault {
     NonDigitVersion { minor: bool, ch: u8 },
     MissingVersion,
     HeaderWithoutColon(String),
+    /// a colon-less line (optionally starting with SP / TAB) after `pos` well-formed header lines
+    ColonlessLineAt { pos: u16, lead: u8, text: String, crlf: bool },
     NoEmptyLine,
     Truncated(u16),
 }
@@ -51,6 +53,7 @@ fn fault() -> impl Strategy<Value = Fault> {
         1 => (any::<bool>(), prop::sample::select(vec![b'x', b'a', b' ', b'-', b'/', 0xb2u8])).prop_map(|(minor, ch)| Fault::NonDigitVersion { minor, ch }),
         1 => Just(Fault::MissingVersion),
         1 => "[A-Za-z][A-Za-z0-9 -]{0,12}".prop_map(Fault::HeaderWithoutColon),
+        2 => (any::<u16>(), prop::sample::select(vec![0u8, b' ', b'\t']), "[A-Za-z0-9][A-Za-z0-9 ,;=-]{0,12}", any::<bool>()).prop_map(|(pos, lead, text, crlf)| Fault::ColonlessLineAt { pos, lead, text, crlf }),
         2 => Just(Fault::NoEmptyLine),
         3 => any::<u16>().prop_map(Fault::Truncated),
     ]
@@ -110,6 +113,22 @@ pub fn faulty_bytes(req: &HttpReq, f: &Fault) -> Option<Vec<u8>> {
             v.extend_from_slice(&good[rl_end..]);
             Some(v)
         }
+        Fault::ColonlessLineAt { pos, lead, text, crlf } => {
+            // offset after `k` header lines
+            let k = pick(*pos, req.headers.len() + 1);
+            let mut off = req.request_line().len() + req.eol(0).len();
+            for (i, (n, v)) in req.headers.iter().enumerate().take(k) {
+                off += n.len() + 1 + v.len() + req.eol(1 + i).len();
+            }
+            let mut v = good[..off].to_vec();
+            if *lead != 0 {
+                v.push(*lead);
+            }
+            v.extend_from_slice(text.as_bytes());
+            v.extend_from_slice(if *crlf { b"\r\n" } else { b"\n" });
+            v.extend_from_slice(&good[off..]);
+            Some(v)
+        }
         Fault::NoEmptyLine => {
             let last_eol = req.eol(1 + req.headers.len()).len();
             Some(good[..end - last_eol].to_vec())
@@ -148,6 +167,7 @@ pub fn check(c: &Case, st: &mut Stats) -> Check {
         Fault::NonDigitVersion { .. } => "fault:non-digit-version",
         Fault::MissingVersion => "fault:missing-version",
         Fault::HeaderWithoutColon(_) => "fault:header-without-colon",
+        Fault::ColonlessLineAt { lead, .. } => if *lead == 0 { "fault:colon-less-line-among-headers" } else { "fault:colon-less-line-starting-with-blank" },
         Fault::NoEmptyLine => "fault:no-empty-line",
         Fault::Truncated(_) => "fault:truncated",
     };
